@@ -1,6 +1,6 @@
 """C12 — field ranges (--nth, --with-nth, {N}) select exactly the designated fields."""
 ID = "C12"
-EXTRA_PROPS = ["FieldFnsTables", "ItemFnsTables", "C12Translated", "FieldGlueTables"]
+EXTRA_PROPS = ["FieldFnsTables", "ItemFnsTables", "C12Translated", "FieldGlueTables", "EngineLoopTables"]
 SUBMODULES = ["c12cli"]   # the field cases of the pty stream: {N} placeholders under -d / --with-nth at the Model's call sites   # translate_neg / to_index_pair as TRANSLATED from src/field.rs = the model's functions (Props/FieldFnsTables.lean)
 N_QUICK, N_THOROUGH = 6000, 400000
 RULE = ("lines assembled from fields (empty, ASCII, 2/3/4-byte characters) and instances of the delimiter regex "
@@ -282,3 +282,4 @@ LEVEL_NOTE = ("Trusted: Lean kernel + propext/Classical.choice/Quot.sound; regex
 
 TECHNIQUE += ' + translator tie: translate_neg / to_index_pair (src/field.rs) and the item glue (src/helper/item.rs) translated and proved equal to the model (Props/FieldFnsTables.lean, ItemFnsTables.lean, C12Translated.lean)'
 TECHNIQUE += '; get_ranges_by_delimiter and the begin/end reads of get_string_by_field / parse_matching_fields / parse_transform_fields translated into source tables and proved equal to the model (Props/FieldGlueTables.lean)'
+TECHNIQUE += '; the --nth loop of the leaf engines translated (Props/EngineLoopTables.lean)'
